@@ -152,6 +152,12 @@ lexp = z3.RecFunction("lexp", Q, I, Q)
 _k = z3.Const("_k", I)
 z3.RecAddDefinition(lexp, [_ls, _k], z3.If(_k <= 0, z3.Empty(Q), z3.Concat(lexp(_ls, _k - 1), lexline(_ls[_k - 1]))))
 
+# Uninterpreted twins of the list functions: a contract that only passes list items on (and never needs how snth / srest / slen are
+# computed) lists them under `opaque_funcs`; hiding the definitions keeps the solver from unfolding them endlessly.
+OPAQUE_FUNCS = {
+    "snth": z3.Function("snth_u", SList, I, SExp), "slen": z3.Function("slen_u", SList, I),
+    "sfirst": z3.Function("sfirst_u", SList, SExp), "srest": z3.Function("srest_u", SList, SList),
+}
 SPEC_FUNCS = {
     "flat": (flat, ["sexp"], ("seq", "str")),
     "lexline": (lexline, ["str"], ("seq", "str")),
